@@ -28,6 +28,10 @@ func OraclesFor(prop string) []Oracle {
 		return []Oracle{t, &C13{}}
 	case "C14":
 		return []Oracle{t, &C14{}}
+	case "C18":
+		return []Oracle{t, &C18{}}
+	case "C19":
+		return []Oracle{t, &C19{}}
 	}
 	return nil
 }
